@@ -1,6 +1,23 @@
 package t
 
-import "fmt"
+import (
+	"fmt"
+	"math/rand"
+)
+
+// seqSrc: a rand.Source whose k-th Int63 is xs[k mod len] << 32, so that r.Intn(n) == xs[k mod len] % n for the
+// small non-negative xs used here (math/rand: Intn -> Int31n -> Int31() = Int63()>>32, then & (n-1) or % n).
+type seqSrc struct {
+	xs []int64
+	k  int
+}
+
+func (s *seqSrc) Int63() int64 { v := s.xs[s.k%len(s.xs)]; s.k++; return v << 32 }
+func (s *seqSrc) Seed(int64)   {}
+
+func newSeq() *rand.Rand {
+	return rand.New(&seqSrc{xs: []int64{7, 0, 12, 5, 3, 1000, 1, 64, 9, 2, 31}})
+}
 
 // Run calls every function of t.go on fixed inputs; `try` prints "<label> ok <result>" or "<label> panic".
 // NOT translated (run.sh passes only t.go to go2lean); eval.lean prints the same lines from the translation.
@@ -33,5 +50,105 @@ func Run(try func(string, func() string)) {
 		try(fmt.Sprintf("fib %d", n), func() string { return fmt.Sprint(fib(n)) })
 		try(fmt.Sprintf("useFill %d", n), func() string { return fmt.Sprint(useFill(n)) })
 		try(fmt.Sprintf("methods %d", n), func() string { return fmt.Sprint(methods(n)) })
+	}
+	for _, s := range ints {
+		for _, lo := range []int{-1, 0, 1} {
+			for _, hi := range []int{0, 2, 4, 6, 7} {
+				try(fmt.Sprintf("scan %v %d %d", s, lo, hi), func() string {
+					c := append([]int{}, s...)
+					i, j := scan(c, lo, hi)
+					return fmt.Sprint(c, i, j)
+				})
+			}
+		}
+		try(fmt.Sprintf("shuffle %v", s), func() string {
+			c := append([]int{}, s...)
+			r := newSeq()
+			shuffle(c, r)
+			return fmt.Sprint(c, r.Intn(1000))
+		})
+		try(fmt.Sprintf("clockShuffle %v", s), func() string { return fmt.Sprint(clockShuffle(append([]int{}, s...))) })
+	}
+	for _, n := range []int{-1, 0, 1, 2, 5, 9} {
+		for _, k := range []int{0, 1, 3, 5} {
+			try(fmt.Sprintf("draws %d %d", n, k), func() string { return fmt.Sprint(draws(newSeq(), n, k)) })
+		}
+		try(fmt.Sprintf("draw2 %d", n), func() string {
+			r := newSeq()
+			x := draw2(r, n)
+			return fmt.Sprint(x, r.Intn(1000))
+		})
+	}
+	for _, sc := range [][]int{{}, {5, 10, 6, 7, 8}, {5, 5, 11, 12, 13, 13}, {6}, {7}, {8}, {0}, {25}, {10, 15, 20, 9, 14, 19, 24, 11, 17, 18, 13}, {5, 8, 5, 6, 8, 8},
+		{10, 1}, {10, 27}, {10, 3}, {10, 28}, {9, 14}, {4}, {29}, {5, 10, 15, 20, 21, 16, 11, 6, 22, 17, 12, 7, 23, 18, 13, 8}} {
+		try(fmt.Sprintf("records %v", sc), func() string { return fmt.Sprint(records(sc)) })
+	}
+	us := []uint{0, 1, 3, 255, 1 << 63, 1<<64 - 1}
+	for _, x := range us {
+		for _, y := range us {
+			for _, sh := range []int{-1, 0, 1, 8, 63, 64, 200} {
+				try(fmt.Sprintf("words %d %d %d", x, y, sh), func() string { return fmt.Sprint(words(x, y, sh)) })
+			}
+		}
+	}
+	for _, v := range []int{0, 1, -1, 255, -256, 1 << 40, -(1 << 40) - 12345, 1<<62 + 77} {
+		for _, sh := range []int{-3, 0, 4, 8, 56, 63, 64, 65} {
+			try(fmt.Sprintf("ibits %d %d", v, sh), func() string { return fmt.Sprint(ibits(v, sh)) })
+		}
+	}
+	for _, s := range []string{"", "a", "mid", "zz", "h\xc3\xa9llo", "\x00\xff\x80"} {
+		for _, i := range []int{-1, 0, 1, 2, 4, 6} {
+			try(fmt.Sprintf("bytesOf %q %d", s, i), func() string { return fmt.Sprint(bytesOf(s, i, []int{10, 20, 30, 40, 50})) })
+		}
+	}
+	for _, a := range [][]string{{}, {"b"}, {"b", "a", "", "ab", "a", "\xff", "a\x00"}, {"same", "same"}} {
+		try(fmt.Sprintf("sortStrings %q", a), func() string {
+			c := append([]string{}, a...)
+			n := sortStrings(c)
+			return fmt.Sprintf("%q %d", c, n)
+		})
+	}
+	for _, a := range [][]uint{{}, {5, 1<<64 - 1, 0, 1 << 63, 5}} {
+		try(fmt.Sprintf("sortUints %v", a), func() string {
+			c := append([]uint{}, a...)
+			n := sortUints(c)
+			return fmt.Sprint(c, n)
+		})
+	}
+	for _, a := range ints {
+		try(fmt.Sprintf("sortInts %v", a), func() string {
+			c := append([]int{}, a...)
+			n := sortInts(c)
+			return fmt.Sprint(c, n)
+		})
+		for _, d := range []int{0, 1, 3, 5} {
+			try(fmt.Sprintf("paint %v %d", a, d), func() string {
+				c := append([]int{}, a...)
+				paint(c, 0, len(c)-1, d)
+				return fmt.Sprint(c)
+			})
+			try(fmt.Sprintf("gshuffle %v %d", a, d-1), func() string { return fmt.Sprint(gshuffle(append([]int{}, a...), d-1)) })
+		}
+	}
+	try("paint-range", func() string { c := []int{1, 2, 3}; paint(c, 0, 5, 4); return fmt.Sprint(c) })
+	for _, x := range []uint64{0, 1, 12, 18, 1<<64 - 1, 1 << 63} {
+		for _, y := range []uint64{0, 1, 8, 18, 27, 1<<64 - 1} {
+			try(fmt.Sprintf("euclid %d %d", x, y), func() string { return fmt.Sprint(euclid(x, y)) })
+		}
+	}
+	for _, n := range []int{-5, 0, 1, 9, 10, 11} {
+		for _, k := range []int{-3, 0, 1, 5} {
+			try(fmt.Sprintf("nextMultiple %d %d", n, k), func() string { return fmt.Sprint(nextMultiple(n, k)) })
+		}
+	}
+	for _, in := range [][]int{{}, {3}, {3, 5, 3, 8}} {
+		for _, sc := range [][]int{{}, {3}, {8, 12, 2, 14}, {9}, {13}, {17}, {5}, {21}, {8, 12, 16, 13, 13, 9, 4, 34, 3, 17}} {
+			try(fmt.Sprintf("bagScript %v %v", in, sc), func() string { return fmt.Sprint(bagScript(in, sc)) })
+		}
+	}
+	for _, n := range []int{-1, 0, 1, 2, 4} {
+		for k, ps := range [][]int{{}, {0, 0}, {1, 0, 0, 1, 3, 2, 2}, {0, 3, 3, 9, 5, 0}} {
+			try(fmt.Sprintf("netScript %d %d %v", n, k, ps), func() string { return fmt.Sprint(netScript(n, kind(k), ps)) })
+		}
 	}
 }
